@@ -203,7 +203,7 @@ func c03R1R3R7(p *core.Program, r *core.Report) {
 		r.Check(unq, "R7", nf, "own-package references are returned unqualified", nf.Node().Pos(), "return under path == n.pkgPath has no qualifier", "references to the file's own package are not returned unqualified")
 	}
 	// pkgPath is bound to the target package in InitWith
-	iw := p.FuncByName("pkg/gengo", "(*genfile).InitWith")
+	iw := fileMethod(p, "InitWith")
 	if iw == nil {
 		r.Anchor("R7", "pkg/gengo.(*genfile).InitWith")
 		return
@@ -261,8 +261,8 @@ func c03R2(p *core.Program, r *core.Report) {
 		f := core.FieldOf(info, e)
 		return isRoleAny(f, "file.imports")
 	}
-	iw := p.FuncByName("pkg/gengo", "(*genfile).InitWith")
-	wf := p.FuncByName("pkg/gengo", "(*genfile).WriteToFile")
+	iw := fileMethod(p, "InitWith")
+	wf := fileMethod(p, "WriteToFile")
 	if iw == nil || wf == nil {
 		r.Anchor(rule, "pkg/gengo.(*genfile).InitWith / WriteToFile")
 		return
@@ -278,7 +278,7 @@ func c03R2(p *core.Program, r *core.Report) {
 	wi := core.CallsTo(wf.Info(), wf.Body, true, core.G("pkg/gengo.writeImports"))
 	for _, c := range wi {
 		if len(c.Args) == 2 {
-			if ic := core.AsCall(wf.Info(), c.Args[1], ifaceImports); ic != nil && isImportsField(wf.Info(), recvOf(ic)) && core.SameRef(wf.Info(), recvOf(ic).(*ast.SelectorExpr).X, recvIdent(wf)) {
+			if ic := core.AsCall(wf.Info(), c.Args[1], ifaceImports); ic != nil && isImportsField(wf.Info(), recvOf(ic)) && sameAlias(wf, recvOf(ic).(*ast.SelectorExpr).X, recvVar(wf)) {
 				okPrint = true
 			}
 		}
@@ -401,6 +401,15 @@ func recvIdent(f *core.Func) ast.Expr {
 		return f.Decl.Recv.List[0].Names[0]
 	}
 	return ast.NewIdent("_")
+}
+
+// recvVar: the receiver variable of a method (nil for functions).
+func recvVar(f *core.Func) *types.Var {
+	if id, ok := recvIdent(f).(*ast.Ident); ok && id.Name != "_" {
+		v, _ := f.Info().ObjectOf(id).(*types.Var)
+		return v
+	}
+	return nil
 }
 
 func c03Tracker(p *core.Program, r *core.Report) {
